@@ -21,7 +21,8 @@ Inductive nop :=
 | NDesc (nodes_only : bool) (r : nat)
 | NPre (nodes_only : bool) (r : nat)
 | NSizes (nodes_only : bool) (r : nat)
-| NArity (r : nat).
+| NArity (r : nat)
+| NIterScript (nodes_only : bool) (r : nat) (script : list nat).   (* one iterator; each entry k is it.nth(k) (0 = next) *)
 
 Inductive nres :=
 | ROne (o : option pos)
@@ -49,6 +50,28 @@ Section Nav.
         match (if nodes_only then node_iter_next rs it else elem_iter_next rs it) with
         | (Some q, rs', it') => match k with O => (Some q, rs') | S k' => iter_nth nodes_only f rs' it' k' end
         | (None, rs', _) => (None, rs')
+        end
+    end.
+
+  (* it.nth(k) on an iterator that is kept *)
+  Fixpoint iter_adv (nodes_only : bool) (fuel : nat) (rs : rstate) (it : iter) (k : nat) : option pos * rstate * iter :=
+    match fuel with
+    | O => (None, rs, it)
+    | S f =>
+        match (if nodes_only then node_iter_next rs it else elem_iter_next rs it) with
+        | (Some q, rs', it') => match k with O => (Some q, rs', it') | S k' => iter_adv nodes_only f rs' it' k' end
+        | (None, rs', it') => (None, rs', it')
+        end
+    end.
+
+  (* a sequence of nth calls on ONE iterator: the elements it yields (exhausted calls yield nothing) *)
+  Fixpoint iter_script (nodes_only : bool) (fuel : nat) (rs : rstate) (it : iter) (script : list nat) : list pos * rstate :=
+    match script with
+    | [] => ([], rs)
+    | k :: sc =>
+        match iter_adv nodes_only fuel rs it k with
+        | (Some q, rs', it') => let x := iter_script nodes_only fuel rs' it' sc in (q :: fst x, snd x)
+        | (None, rs', it') => iter_script nodes_only fuel rs' it' sc
         end
     end.
 
@@ -115,6 +138,7 @@ Section Nav.
                 let all1 := collect (snd (fst nx)) (snd nx) in
                 (RSizes (len_of it0) (length (fst all0)) (len_of (snd nx)) (length (fst all1)), None, snd all0)) no
     | NArity r => on r (fun p => (RArity (length (filter is_node (kids g p))) (length (kids g p)), None, rs)) no
+    | NIterScript b r script => on r (fun p => lst (iter_script b (S (length (kids g p))) rs (iter_new g rs p) script)) no
     end.
 
   Fixpoint nav_run (regs : list (option pos)) (rs : rstate) (ops : list nop)
